@@ -514,7 +514,11 @@ func (s *sealer) payload(ct *aCt, o encOpts, op string) []byte {
 		panic(err)
 	}
 	if !ct.Ok {
-		if op == "truncCt" {
+		if op == "tinyCt" {
+			c = c[:5]
+		} else if op == "emptyCt" {
+			c = c[:0]
+		} else if op == "truncCt" {
 			c = c[:len(c)-1]
 		} else {
 			c[len(c)/2] ^= 0x10
